@@ -671,7 +671,91 @@ end Jwt.Generated
     return "EcTables.lean", text, {"gnutlsAdj": adj, "gnutlsVerifyWidth": vw, "gnutlsVerifyDefault": vw_default, "gnutlsVerifyMul": gv_mul, "bn_len": bn_l, "buf_mul": buf_mul, "ver_mul": ver_mul}
 
 
-GENERATORS = [gen_base64, gen_alg, gen_common, gen_jwk, gen_ops, gen_cli, gen_conc, gen_ecframe]
+def gen_ll(repo, build):
+    """ll.h: the pointer operations of the intrusive list, translated statement by statement into heap
+    transformers (Option = a dereference of an invalid pointer)"""
+    src = open(os.path.join(repo, "libjwt/ll.h")).read()
+    src = re.sub(r"/\*.*?\*/", "", src, flags=re.S)
+    src = re.sub(r"//[^\n]*", "", src)
+    fns = {}
+    order = []
+    for m in re.finditer(r"static\s+inline\s+void\s+(\w+)\s*\(([^)]*)\)\s*\{([^}]*)\}", src):
+        name, params, body = m.group(1), m.group(2), m.group(3)
+        ps = []
+        for prm in params.split(","):
+            pm = re.fullmatch(r"\s*(?:struct\s+ll_head|ll_t)\s*\*\s*(\w+)\s*", prm)
+            if not pm:
+                raise ExtractError("ll.h: parameter %r of %s outside the translatable fragment" % (prm, name))
+            ps.append(pm.group(1))
+        fns[name] = (ps, [st.strip() for st in body.split(";") if st.strip()])
+        order.append(name)
+    need = ["INIT_LIST_HEAD", "list_insert", "list_add", "list_add_tail", "list_join_nodes", "list_del"]
+    for n_ in need:
+        if n_ not in fns:
+            raise ExtractError("ll.h: function %s not found" % n_)
+    out = []
+    info = {}
+    for name in order:
+        ps, stmts = fns[name]
+        lines = []
+        tmp = [0]
+
+        def rd(e):
+            """an rvalue: parameter, NULL, or P->field (a read through a pointer)"""
+            e = e.strip()
+            if e == "NULL":
+                return "0"
+            if re.fullmatch(r"\w+", e):
+                if e not in ps:
+                    raise ExtractError("ll.h %s: unknown identifier %r" % (name, e))
+                return "a_" + e
+            fm = re.fullmatch(r"(\w+)->(next|prev)", e)
+            if fm and fm.group(1) in ps:
+                t = "t%d" % tmp[0]
+                tmp[0] += 1
+                lines.append("  let %s ← h.get%s a_%s" % (t, fm.group(2).capitalize(), fm.group(1)))
+                return t
+            raise ExtractError("ll.h %s: expression %r outside the translatable fragment" % (name, e))
+        for st in stmts:
+            am = re.fullmatch(r"(\w+)->(next|prev)\s*=\s*(.+)", st)
+            cm = re.fullmatch(r"(\w+)\s*\((.*)\)", st)
+            if am and am.group(1) in ps:
+                v = rd(am.group(3))
+                lines.append("  let h ← h.set%s a_%s %s" % (am.group(2).capitalize(), am.group(1), v))
+            elif cm and cm.group(1) in fns:
+                args = [rd(a) for a in cm.group(2).split(",")]
+                lines.append("  let h ← %s h %s" % (cm.group(1), " ".join(args)))
+            else:
+                raise ExtractError("ll.h %s: statement %r outside the translatable fragment" % (name, st))
+        out.append("/-- ll.h `%s(%s)` -/\ndef %s (h : Heap) %s : Option Heap := do\n%s\n  pure h\n" % (
+            name, ", ".join(ps), name, " ".join("(a_%s : Addr)" % p_ for p_ in ps), "\n".join(lines)))
+        info[name] = stmts
+    # the two iteration macros libjwt uses: only their shape is checked (the loops are modelled by hand)
+    mac = {}
+    raw = open(os.path.join(repo, "libjwt/ll.h")).read()
+    for mname, want in (("list_for_each_entry", r"for\(pos=list_entry\(\(head\)->next,__typeof__\(\*pos\),member\);&pos->member!=\(head\);pos=list_entry\(pos->member\.next,__typeof__\(\*pos\),member\)\)"),
+                        ("list_for_each_entry_safe", r"for\(pos=list_entry\(\(head\)->next,__typeof__\(\*pos\),member\),n=list_entry\(pos->member\.next,__typeof__\(\*pos\),member\);&pos->member!=\(head\);pos=n,n=list_entry\(n->member\.next,__typeof__\(\*n\),member\)\)")):
+        mm = re.search(r"#define\s+%s\(([^)]*)\)((?:[^\n]*\\\n)*[^\n]*)" % mname, raw)
+        if not mm:
+            raise ExtractError("ll.h: macro %s not found" % mname)
+        body = re.sub(r"[\s\\]+", "", mm.group(2))
+        if not re.fullmatch(want, body):
+            raise ExtractError("ll.h: macro %s no longer has the shape the hand-written loop models assume: %s" % (mname, body))
+        mac[mname] = True
+    text = f"""/- GENERATED by tie/extract.py from libjwt/ll.h -- do not edit.
+   Each `static inline` list function translated statement by statement: `P->f = E` becomes a checked store,
+   `P->f` on the right a checked load (Option.none = dereference of an invalid pointer), calls become calls.
+   Regenerated from /repo on every check run; Jwt/Lemmas/Ll.lean proves the list invariant over these. -/
+import Jwt.LlHeap
+namespace Jwt.Ll
+
+{chr(10).join(out)}
+end Jwt.Ll
+"""
+    return "LlOps.lean", text, {"functions": info, "macros_checked": sorted(mac)}
+
+
+GENERATORS = [gen_base64, gen_alg, gen_common, gen_jwk, gen_ops, gen_cli, gen_conc, gen_ecframe, gen_ll]
 
 
 def main():
